@@ -954,6 +954,7 @@ func ruleLayering(c *Ctx, r *Repo, cp *packages.Package) {
 					return true
 				})
 				d := newDT(info)
+				d.constStrings = true // the prefix may be a named constant of the package
 				st := &dtPath{env: map[types.Object]string{}}
 				i := 0
 				for _, f := range params.List {
